@@ -77,3 +77,14 @@ VARIANTS += [
          old="        return (value1 == value2) or (value1_is_nan and value2_is_nan)\n",
          new="        return value1 is value2 or value1 == value2\n"),
 ]
+
+VARIANTS += [
+    dict(id="c09-cache-entry-type-test", prop="C09", file="optuna/samplers/_nsgaiii/_sampler.py", expect="R09.8",
+         old="            cached_generation, cached_population_numbers = study_system_attrs.get(\n                cache_key, (-1, [])\n            )\n",
+         new="            entry = study_system_attrs.get(cache_key)\n            if type(entry) is not tuple:\n                entry = (-1, [])\n            cached_generation, cached_population_numbers = entry\n"),
+    dict(id="c09-neutral-cache-entry-list-or-tuple", prop="C09", file="optuna/samplers/_nsgaiii/_sampler.py", expect=None,
+         old="            cached_generation, cached_population_numbers = study_system_attrs.get(\n                cache_key, (-1, [])\n            )\n",
+         new="            entry = study_system_attrs.get(cache_key)\n            if not isinstance(entry, (list, tuple)):\n                entry = (-1, [])\n            cached_generation, cached_population_numbers = entry\n"),
+    dict(id="c09-constraints-stored-by-reference", prop="C09", file="optuna/samplers/_base.py", expect="R09.9",
+         old="        constraints = tuple(con)\n", new="        constraints = con\n"),
+]
